@@ -136,6 +136,10 @@ impl<Event> Processor<&Event> for SimClock {
 #[derive(Debug, Default)]
 pub struct StrategyScript {
     pub next: Option<(Vec<OrderRequestCancel>, Vec<OrderRequestOpen>)>,
+    /// whole-system runs (Sim H): batches released once the strategy has been asked `.0` times
+    pub queue: std::collections::VecDeque<(u64, Vec<OrderRequestCancel>, Vec<OrderRequestOpen>)>,
+    /// number of queued batches released so far
+    pub released: u64,
     pub algo_calls: u64,
     pub disconnects: Vec<ExchangeId>,
     pub trading_disabled_calls: u64,
@@ -162,7 +166,15 @@ impl AlgoStrategy for SimStrategy {
     ) {
         let mut s = self.script.lock().unwrap();
         s.algo_calls += 1;
-        s.next.take().unwrap_or_default()
+        if let Some(next) = s.next.take() {
+            return next;
+        }
+        if s.queue.front().is_some_and(|(at, _, _)| *at <= s.algo_calls) {
+            let (_, c, o) = s.queue.pop_front().unwrap();
+            s.released += 1;
+            return (c, o);
+        }
+        Default::default()
     }
 }
 
@@ -349,6 +361,10 @@ pub struct StepB {
 
 #[derive(Clone, Debug, Serialize, Deserialize)]
 pub struct ScenarioB {
+    /// C14 only: market / account items and disconnect notices reach the feed through real
+    /// reconnecting streams (one per exchange link) instead of being fed directly
+    #[serde(default)]
+    pub via_streams: bool,
     pub topo: TopoB,
     pub trading_enabled_at_start: bool,
     pub init_bal: Vec<Option<i64>>,
@@ -1307,6 +1323,7 @@ pub fn plan_b(rng: &mut Rng, cfg: &PlanCfg) -> ScenarioB {
         });
     }
     ScenarioB {
+        via_streams: false,
         topo,
         trading_enabled_at_start,
         init_bal,
